@@ -463,9 +463,12 @@ def explore(run):
             for b in X.CORE_PIECES:
                 shards.append(("P5", (a, b)))
     else:
-        shards.append(("P", (), 0, allp, 1))
+        shards.append(("P", (), 1, allp, 1))
         for a in allp:
-            shards.append(("P", (a,), 3, allp, 8))
+            # sequences of 2 and 3 pieces, in shards of one (first, second) pair each third of the alphabet
+            for lo in range(0, np_, 11):
+                for b in allp[lo:lo + 11]:
+                    shards.append(("P", (a, b), 3, allp, 8))
     for a in allp:
         shards.append(("Pbom", a, 2 if not run.thorough() else 3))
     ns = len(X.SYMBOLS)
